@@ -147,7 +147,7 @@ pub fn run_case(rep: &mut Report, p: &Params) {
     let built = match b.build() {
         Ok(x) => x,
         Err(e) => {
-            rep.violation(&format!("C10|panic|{}|{}", e.file(), e.class()), &format!("setup panicked: {} at {}", e.message, e.location), replay);
+            rep.violation(&format!("C10|panic|{}|{}", e.site(), e.class()), &format!("setup panicked: {} at {}", e.message, e.location), replay);
             return;
         }
     };
@@ -161,7 +161,7 @@ pub fn run_case(rep: &mut Report, p: &Params) {
                 Ok(a) => a,
                 Err(e) => {
                     rep.violation(
-                        &format!("C10|panic|{}|{}", e.file(), e.class()),
+                        &format!("C10|panic|{}|{}", e.site(), e.class()),
                         &format!("{} panicked: {} at {}", $what, e.message, e.location),
                         replay.clone(),
                     );
@@ -377,7 +377,7 @@ fn run_slave_seq(rep: &mut Report, n: u32, seed: u64) {
                 }
             }
             Err(e) => {
-                rep.violation(&format!("C10|panic|{}|{}", e.file(), e.class()), &format!("delay request timer panicked: {}", e.message), replay.clone());
+                rep.violation(&format!("C10|panic|{}|{}", e.site(), e.class()), &format!("delay request timer panicked: {}", e.message), replay.clone());
                 return;
             }
         }
